@@ -10,6 +10,7 @@ import (
 	"strings"
 	"sync"
 	"time"
+	"verif/harness/props/c03b"
 
 	"github.com/jcmturner/gofork/encoding/asn1"
 	"github.com/jcmturner/goidentity/v6"
@@ -78,9 +79,9 @@ type mechTok struct {
 	j     jv.V // model structure
 	kind  string
 	// for AP-REQ tokens: whether the request was minted valid, and its sealed identity
-	valid  bool
-	user   string
-	domain string
+	valid        bool
+	user         string
+	domain       string
 	cipherRanges [][2]int // byte ranges (within bytes) of the two ciphertexts
 }
 
@@ -472,6 +473,70 @@ func c03(c *Ctx) {
 			c.Count("mutation:substitute")
 		}
 	}
+
+	// ---- one wrapper shared by concurrent requests: each request is verified against ITS OWN connection address.
+	// The application's option list has spare capacity (a legal way to pass it), tickets are bound to host A, and
+	// requests arrive concurrently from host A and from host B with tickets of host A.
+	{
+		hostA := types.HostAddress{AddrType: 2, Address: []byte{10, 0, 0, 1}}
+		opts := make([]func(*service.Settings), 0, 8)
+		opts = append(opts, service.MaxClockSkew(skew), service.DecodePAC(false))
+		inner := http.HandlerFunc(func(w http.ResponseWriter, r *http.Request) { w.WriteHeader(200) })
+		h := spnego.SPNEGOKRB5Authenticate(inner, s.kt, opts...)
+		header := func() string {
+			r := baseRecipe(c, s, 18)
+			r.caddr = []types.HostAddress{hostA}
+			m := mint(c, r)
+			ab, err := m.req.Marshal()
+			if err != nil {
+				panic(err)
+			}
+			nt := spnego.NegTokenInit{MechTypes: []asn1.ObjectIdentifier{gssapi.OIDKRB5.OID()}, MechTokenBytes: krb5Mech([]byte{1, 0}, gssapi.OIDKRB5.OID(), ab)}
+			st := spnego.SPNEGOToken{Init: true, NegTokenInit: nt}
+			b, err := st.Marshal()
+			if err != nil {
+				panic(err)
+			}
+			return "Negotiate " + base64.StdEncoding.EncodeToString(b)
+		}
+		serve := func(remote, hdr string) int {
+			req := httptest.NewRequest("GET", "http://host.test.gokrb5/", nil)
+			req.RemoteAddr = remote
+			req.Header.Set("Authorization", hdr)
+			w := httptest.NewRecorder()
+			if p, _ := guard(func() { h.ServeHTTP(w, req) }); p {
+				return -1
+			}
+			return w.Code
+		}
+		// sequentially first: A is served, B is refused
+		c.Check(serve("10.0.0.1:40000", header()) == 200, "a request from the host the ticket is bound to is served", "shared-wrapper:own-host-refused", "", nil)
+		c.Check(serve("10.0.0.66:40000", header()) == 401, "a request from another host than the ticket's is refused", "shared-wrapper:other-host-served", "sequential", nil)
+		rounds := 120
+		if !c.Quick() {
+			rounds = 1500
+		}
+		wrongB, wrongA := 0, 0
+		for i := 0; i < rounds; i++ {
+			ha, hb := header(), header()
+			var ca, cb int
+			var wg sync.WaitGroup
+			wg.Add(2)
+			go func() { defer wg.Done(); ca = serve("10.0.0.1:40000", ha) }()
+			go func() { defer wg.Done(); cb = serve("10.0.0.66:40000", hb) }()
+			wg.Wait()
+			if cb != 401 {
+				wrongB++
+			}
+			if ca != 200 {
+				wrongA++
+			}
+		}
+		c.Check(wrongB == 0, "a request from another host than the ticket's is refused, whatever else the wrapper is serving", "shared-wrapper:other-host-served", fmt.Sprintf("%d of %d concurrent rounds", wrongB, rounds), nil)
+		c.Check(wrongA == 0, "a request from the host the ticket is bound to is served, whatever else the wrapper is serving", "shared-wrapper:own-host-refused", fmt.Sprintf("%d of %d concurrent rounds", wrongA, rounds), nil)
+		c.Count("shared-wrapper:rounds")
+	}
 }
 
-func init() { props["C03"] = c03 }
+// C03 = structure-mode stream followed by the wire-bytes stream (props/c03b)
+func init() { props["C03"] = func(c *Ctx) { c03(c); c03b.Run(c) } }
